@@ -3,6 +3,7 @@ package rules
 import (
 	"fmt"
 	"go/types"
+	"regexp"
 	"strings"
 
 	"golang.org/x/tools/go/ssa"
@@ -226,6 +227,11 @@ func shapeProblem(writes, emitted []string, open, clos string, object bool) (pro
 	return
 }
 
+var (
+	reKeyIdx   = regexp.MustCompile(`key(\d+)\.`)
+	reChildIdx = regexp.MustCompile(`ex\(child(\d+)\)`)
+)
+
 func shapeProblem1(writes, emitted []string, open, clos string, object bool) string {
 	// split multi-character constant writes such as `":` into characters for bracket/comma analysis
 	var toks []string
@@ -279,6 +285,12 @@ func shapeProblem1(writes, emitted []string, open, clos string, object bool) str
 		if object {
 			if !strings.Contains(joined, ":") {
 				return "an object member without a colon"
+			}
+			// the key written with a child is that child's own key
+			km := reKeyIdx.FindStringSubmatch(joined)
+			cm := reChildIdx.FindStringSubmatch(joined)
+			if km != nil && cm != nil && km[1] != cm[1] {
+				return fmt.Sprintf("the example of child %s is written under the key of child %s: after an omitted member the following members get the wrong keys", cm[1], km[1])
 			}
 		}
 	}
